@@ -15,7 +15,9 @@ GenActs(s) ==
   \cup {[op |-> "send", s |-> s, b |-> Fresh(c, n), r |-> r] :
           n \in {k \in 0..3 : Len(c.acc) + k <= MaxBytes /\ (Ended(c) => k = 1)},
           r \in {"ok", "err"}}
-  \cup [op : {"close", "wok", "panic"}, s : {s}]
+  \cup [op : {"close", "wok"}, s : {s}]
+  \cup [op : {"panic"}, s : {s},      \* k: how the handler ends - kind of the panic value, or Goexit
+        k : {"string", "error", "struct", "int", "typednil", "nil", "nilerr", "goexit"}]
   \cup [op : {"rok"}, s : {s}, f : {"x", "send", "close"}]   \* f: what the handler does with the frame
                                                             \* (its own Send / Close are recorded by it)
   \cup [op : {"wfault"}, s : {s}, n : 0..2]
